@@ -105,12 +105,13 @@ SeedReq(r, wp) ==
 
 (* Environment assumptions on what simulators grant: only names that were asked for; a   *)
 (* URL belongs to one name (asset names may share one) and, g apart, to one region.      *)
-GrantOK(r, g) ==
+GrantOKIn(E, r, g) ==
     /\ DOMAIN g \subseteq pend[r].up
-    /\ \A e \in EntriesOf(caps) : \A n \in DOMAIN g :
+    /\ \A e \in E : \A n \in DOMAIN g :
           e.u = g[n] => /\ (IF e.n = n THEN TRUE ELSE {e.n, n} \subseteq Asset)   \* (no \/ inside an action:
                         /\ (IF e.r = r THEN TRUE ELSE g[n] = AssetG)              \*  TLC would branch on it)
     /\ \A n \in Names : Len(caps[r][n]) < 6
+GrantOK(r, g) == GrantOKIn(EntriesOf(caps), r, g)
 CapsAfterSeed(r, g) ==
     [caps EXCEPT ![r] = [n \in Names |->
         IF n \in DOMAIN g THEN <<[t |-> "N", u |-> g[n]]>> \o caps[r][n]
@@ -203,8 +204,9 @@ SeedReqOK ==
 (* the viewer is shown every granted cap, wrapper URLs for the asset caps (which resolve *)
 (* to the wrapper cap of THIS region) and the proxy-only caps it asked for               *)
 SeedRespOK ==
-    \A r \in Regions : \A i \in Grants :
-        (pend[r].on /\ GrantOK(r, T(r, i))) =>
+    LET E == EntriesOf(caps) IN
+    \A r \in {r \in Regions : pend[r].on} : \A i \in Grants :
+        GrantOKIn(E, r, T(r, i)) =>
             LET g == T(r, i)  v == Viewer(r, g)  EA == EntriesOf(CapsAfterSeed(r, g)) IN
               /\ DOMAIN v = DOMAIN g \cup pend[r].need
               /\ \A n \in DOMAIN g \ Asset : v[n] = g[n]
